@@ -1487,10 +1487,9 @@ class FuncExecute(ValueFunc):
         if args.hasArg("output_file"):
             output_file = args.getString("output_file").value
 
-        if echo:
-            print(" ".join([program] + arglist))
-
         try:
+            if echo:
+                print(" ".join([program] + arglist))
             return self.runProgram(program, arglist, work_dir, output_file)
         except (OSError, ValueError):
             raise CklRuntimeError(
